@@ -230,7 +230,8 @@ func PubToAddress(pubkey []byte) common.Address {
 }
 
 func (v *Validator) IsInvalid() bool {
-	return v.Token.Uint64() <= 0 && v.Stake.Uint64() <= 0
+	// Uint64() returns only the low 64 bits: 2^64 LU (about 18.4 YOU) would count as nothing
+	return v.Token.Sign() <= 0 && v.Stake.Sign() <= 0
 }
 
 func (v *Validator) IsOnline() bool {
